@@ -260,6 +260,9 @@ type world struct {
 	// "user/col" -> the first write request of this server's life whose batch failed INSIDE a shard (a failed range
 	// / failed point in a 2xx answer, a 5xx), as "<http line>\t<what the answer said>" (see hang.go)
 	rejected map[string]string
+	// first write of this server process whose batch failed inside a shard (never cleared while the process lives:
+	// the goroutines such a batch leaves behind outlive the collection)
+	rejectedEver string
 	cols     map[string]map[string]*colInfo
 	digest   string
 	fails    *[]vh.OracleFailure
@@ -831,6 +834,37 @@ func lastLines(s string, n int) string {
 }
 
 // panic / fatal message of the dead child, with numbers removed: a stable signature
+// panickingGoroutine: the stack of the goroutine that brought the process down (the first goroutine block after the
+// panic / fatal error line), at most 80 lines
+func panickingGoroutine(log string) string {
+	lines := strings.Split(log, "\n")
+	start := -1
+	for i, l := range lines {
+		if strings.HasPrefix(l, "panic:") || strings.HasPrefix(l, "fatal error:") || strings.HasPrefix(l, "unexpected fault address") {
+			start = i
+			break
+		}
+	}
+	if start < 0 {
+		return ""
+	}
+	g := -1
+	for i := start; i < len(lines); i++ {
+		if strings.HasPrefix(lines[i], "goroutine ") {
+			g = i
+			break
+		}
+	}
+	if g < 0 {
+		return ""
+	}
+	end := g + 1
+	for end < len(lines) && strings.TrimSpace(lines[end]) != "" && end-g < 80 {
+		end++
+	}
+	return strings.Join(lines[g:end], "\n")
+}
+
 func deathSig(log string) string {
 	for _, l := range strings.Split(log, "\n") {
 		if strings.HasPrefix(l, "panic:") || strings.HasPrefix(l, "fatal error:") {
@@ -896,6 +930,7 @@ func (rn *runner) restart() {
 	rn.w.taint = map[string]bool{}
 	rn.w.broken = map[string]string{}
 	rn.w.rejected = map[string]string{}
+	rn.w.rejectedEver = ""
 	rn.w.cols = map[string]map[string]*colInfo{}
 	rn.w.digest = ""
 	rn.setup = nil
@@ -1132,6 +1167,9 @@ func (rn *runner) noteRejected(ep, key string, req request, resp response) {
 	}
 	if s := shardRejected(resp.status, resp.body); s != "" {
 		rn.w.rejected[key] = req.line() + "\t" + s
+		if rn.w.rejectedEver == "" {
+			rn.w.rejectedEver = req.line() + "\t" + s
+		}
 		rn.statusCt["write-failed-in-shard"]++
 	}
 }
@@ -1144,8 +1182,20 @@ func (rn *runner) noAnswer(req request, ep, key, how string, resp response, repl
 	time.Sleep(50 * time.Millisecond)
 	if !c.alive() {
 		rn.deaths++
-		sig := fmt.Sprintf("process-death:%s:%s", ep, deathSig(c.log.String()))
-		rn.fail(sig, fmt.Sprintf("the server process died while answering %s %s %s: %s", req.method, req.path, how, lastLines(c.log.String(), 3)), replay)
+		log := c.log.String()
+		sig := fmt.Sprintf("process-death:%s:%s", ep, deathSig(log))
+		what := fmt.Sprintf("the server process died while answering %s %s %s: %s", req.method, req.path, how, lastLines(log, 3))
+		if blk := panickingGoroutine(log); blk != "" {
+			what += "\nthe goroutine that died:\n" + blk
+			if rej := rn.w.rejectedEver; rej != "" && strings.Contains(blk, "go.etcd.io/bbolt") && strings.Contains(blk, "created by github.com/semafind/semadb/") {
+				// the crash face of the defect recorded under C07, reached over HTTP: the request in flight is incidental
+				r := strings.SplitN(rej, "\t", 2)
+				sig = "crash-after-rejected-write:" + deathSig(log)
+				what = fmt.Sprintf("the server process died (while %s %s was in flight): a goroutine started by the shard's write pipeline dereferenced a bbolt transaction that had been rolled back, and an earlier write batch of this process had failed inside a shard (%s). This is the C07 known finding (a refused batch returns while its pipeline goroutines are still running), reached over HTTP.\n", req.method, req.path, r[1]) + what
+				replay = append([]string{"# the earlier write whose batch failed inside the shard: " + r[0]}, replay...)
+			}
+		}
+		rn.fail(sig, what, replay)
 		rn.statusCt["dead"]++
 		rn.restart()
 		return
